@@ -987,7 +987,7 @@ int main(int argc, char **argv) {
             long s = argl(kv, n, "s", 0);
             long eb = argl(kv, n, "eb", 128);
             char *errbuf;
-            size_t errlen = (size_t)eb;
+            size_t errlen = eb > 0 ? (size_t)eb : 0;
             int r, term = 0;
             size_t i;
             if(s < 0 || s >= NSLOTS || !slots[s].td || !slots[s].ptr) { fprintf(o, "R chk error=badslot\n"); continue; }
@@ -996,7 +996,7 @@ int main(int argc, char **argv) {
             lib_begin();
             r = asn_check_constraints(slots[s].td, slots[s].ptr, eb >= 0 ? errbuf : 0, eb >= 0 ? &errlen : 0);
             lib_end();
-            for(i = 0; i < (size_t)eb; i++) if(!errbuf[i]) { term = 1; break; }
+            for(i = 0; eb > 0 && i < (size_t)eb; i++) if(!errbuf[i]) { term = 1; break; }
             fprintf(o, "R chk rc=%d eb=%ld errlen=%zu term=%d msg=", r, eb, errlen, term);
             if(r && eb > 0 && term) puthex(o, errbuf, strlen(errbuf)); else fprintf(o, "-");
             fprintf(o, "\n");
